@@ -5,15 +5,21 @@ import json
 # additions made while extending the checks against seeded changes (kept apart from the original texts in props.py)
 ADD = {
  "C03": "Deliberately invalid artefacts: exactly one site per artefact (chosen among all sites counted by a fault-free probe pass) is made illegal - a match/rep whose distance reaches just outside the dictionary (first symbol, after a dictionary reset, after the window wrapped) or an LZMA2 chunk sequence the grammar forbids (first chunk without dictionary reset in any Block, LZMA chunk without properties where required, reserved control byte); notice flags (TELL_ANY_CHECK, TELL_NO_CHECK) varied.",
- "C04": "Field-level faults: a count or size field replaced by a boundary value (2^60, 2^63-1, 2^32, ...), in an Index the Number of Records; CRC32 of a damaged Block Header / Index recomputed now and then; the single-call decoders get artefacts of their own kind; Filter Flags artefacts; every value of the first properties byte of every filter, directly and as Filter Flags, with allocator balance after each.",
+ "C04": "Field-level faults: a count or size field replaced by a boundary value (2^60, 2^63-1, 2^32, ...), in an Index the Number of Records; CRC32 of a damaged Block Header / Index recomputed now and then; the single-call decoders get artefacts of their own kind; Filter Flags artefacts; every value of the first properties byte of every filter, directly and as Filter Flags, with allocator balance after each. Poison differential (stands in for MSan): the single-threaded streaming decoders run twice, fresh allocations filled with 0xA5 and with zeros; delivered bytes and final status must be equal. Streams from the generative reference encoder with one illegal distance as hostile input. Every lzma_stream may have served another coder before (dirty handles).",
  "C05": "CRC-consistent rewrites now include every single bit of every CRC32-protected field (Stream Flags in header and footer, Backward Size, whole Block Headers, whole Index) flipped with the CRC32 recomputed; the independent reference parser decides whether the rewritten file is still valid (then the bytes must equal the specification's decoding) or must be rejected. The quick tier completes the sweep for the first five of the twelve decoder x delivery combinations, the thorough tier for all.",
+ "C01": "Single-call encoders append at any *out_pos (0..8); the multi-call encoders are also driven with sync flushes a few bytes apart (BT/HC match finders, small nice_len, low-entropy data).",
+ "C02": "Single-call encoders append at any *out_pos (0..8), the bytes before it must stay untouched.",
+ "C07": "Artefacts with a Block whose header is well formed (right CRC32, known filters) but whose chain only lzma_block_decoder_init() refuses (unaligned BCJ start offset); a client that offers exactly the uncompressed size of output space and none afterwards; on rejected input the bytes delivered from the failing Block are compared up to the last Block that lies entirely before the first damaged byte (known findings KF-C07-1, KF-C07-5).",
+ "C15": "(RISC-V has no reference transformation; it is covered by the inverse and the one-shot-equals-streaming oracles.)",
+ "C17": "Scenes with several files in one run (compress two/three, decompress two) and with an operand that only earns a warning plus --no-warn.",
+ "C19": "Timestamps are compared with nanosecond precision, access and modification time with different sub-second parts.",
  "C06": "Encoder determinism also on low-entropy data with long verbatim repeats, normal mode with nice_len 8..200, input arriving 1..64 bytes per call (look-ahead territory of the match finder).",
  "C08": "Re-initialisation also with another Block size; lzma_filters_update() with the chain in use between two lzma_code() calls of one segment (while all workers are busy); chains that must be refused offered at any moment (the threaded encoder's documented delayed refusal is accepted as a refusal).",
  "C09": "File-info limits over synthesised multi-Stream files with up to 20 000 Records per Stream; threaded decoder on big equal-sized Blocks with different declared dictionaries (threaded Block followed by a direct-mode Block).",
  "C10": "Re-initialisation sweep: coder A used (completed or abandoned part-way) on the handle, handle re-initialised for coder B (the same kind more often than not), the k-th allocation counted from B's init fails; lzma_filters_update() after a reported failure.",
  "C11": "The handle may have served another coder before (no lzma_end in between): nothing of that coder, in particular not its set of supported actions, may survive.",
  "C12": "Tool level: xz --flush-timeout under the system-call shim with a slow producer on standard input (read() returns EAGAIN at seeded calls, the following poll() times out and moves the simulated clock): when xz comes back for more input after a flush timeout, everything it has read so far must decode from what it has written so far (crash after acknowledgement), the whole output decodes to the whole input, and chains that cannot be sync-flushed (BCJ, LZMA1) are refused up front. Chains that must be refused (lc+lp>4, dict 100, unaligned BCJ start offset that passes the memory-usage validation and fails in the filter's init, delta dist 257, nice_len 1, unknown filter, LZMA2 twice) offered as the first call, between Blocks, right after an accepted change and mid-Block.",
- "C13": "Histories continue on decoded Indexes (encode -> decode -> append ...); file-info over files with Stream Padding around and beyond the decoder's 8 KiB window.",
+ "C13": "Histories continue on decoded Indexes (encode -> decode -> append ...); file-info over files with Stream Padding around and beyond the decoder's 8 KiB window and over synthesised multi-Stream files whose Streams have exactly chosen sizes around multiples of 8 KiB.",
  "C16": "Notice flags (TELL_ANY_CHECK, TELL_NO_CHECK, TELL_UNSUPPORTED_CHECK; IGNORE_CHECK on undamaged artefacts) varied; one illegal distance site per .lzma file / .lz member.",
  "C18": "Inputs with every dictionary-size form (2^n, 2^n+2^(n-1), arbitrary) for .lzma and .xz and lc/lp/pb variants; compressed sizes at and next to multiples of the tools' 8 KiB buffers; the round trip is xz -k followed by the tool's own xz -dc of the file it wrote. On rejected input the reference is either library decode (one-shot or with the tools' 8 KiB buffers), see known finding KF-C06-2.",
 }
